@@ -3,6 +3,7 @@ package main
 import (
 	"fmt"
 	"math/rand"
+	"slices"
 	"sort"
 	"strings"
 )
@@ -42,6 +43,10 @@ var awkwardTables = [][]string{
 	{"/a/$m", "/a/*{w}"},           // a static sibling that sorts before '*' (seeded C01-3)
 	{"/a/~u", "/a/{x}", "/a/*{w}"}, // and one that sorts after '{'
 	{"/a/!b/c", "/a/{x}/c", "/a/*{w}/d"},
+	// hostname patterns made of parameters only, and numeric labels: they match IP-literal hosts label for label
+	{"{h}.{g}/a", "/a"},
+	{"{h}/a", "a.{g}.b.{h}/a", "/a"},
+	{"{h}.b.b.a/a", "a.{g}.{h}.a/b"},
 	// witnesses TLC finds when one rule of the modelled walk (spec/FoxLookup.tla) is switched off: each is the smallest
 	// table of the model's pool on which that rule decides the answer (DESIGN.md 13.7)
 	{"/a", "/{x}"},                         // T1, T4: the first trailing-slash candidate is kept (request /a/)
@@ -58,7 +63,7 @@ var awkwardTables = [][]string{
 }
 
 var awkwardPaths = []string{"/bb/b", "/a/ab/b", "/a/b/", "/ab/b/", "/a/b", "/a/", "/a/c", "/a/$n", "/a/~v", "/a/c/d", "/a/b/ab/abc", "/a/b/a/", "/ab/a/a", "/a", "/b/", "/abb/", "/abc/", "/a/a/a/a", "/a/a/a/ab", "/ab", "/a/b/b", "/a/b/", "/ab/b", "/ab/b/"}
-var awkwardHosts = []string{"b.a.a.a", "a.ab", "a.b.ab", "a.ab:8080", "aa.abb.abb", "a.b", "a.b.a", "a.b.b", "b.a.b"}
+var awkwardHosts = []string{"1.2", "10.0.0.7", "1", "[::1]:80", "1.b.b.a", "a.1.2.a", "b.a.a.a", "a.ab", "a.b.ab", "a.ab:8080", "aa.abb.abb", "a.b", "a.b.a", "a.b.b", "b.a.b"}
 
 type matchGen struct {
 	Pool   []string
@@ -265,6 +270,27 @@ func derivedHostsFirst(g *matchGen, n int) []string {
 	out := append(first, rest...)
 	if len(out) > n {
 		out = out[:n]
+	}
+	return out
+}
+
+// withHostSpellings adds, for the first hosts of the list, the spellings a Host header may carry for the same name:
+// a port, a trailing dot, and both (the dot then sits in front of the port).
+func withHostSpellings(hs []string, n int) []string {
+	out := slices.Clone(hs)
+	for _, h := range hs {
+		if n == 0 {
+			break
+		}
+		if h == "" || strings.ContainsAny(h, ":[") || strings.HasSuffix(h, ".") {
+			continue
+		}
+		n--
+		for _, v := range []string{h + ":8080", h + ".", h + ".:8080"} {
+			if !slices.Contains(out, v) {
+				out = append(out, v)
+			}
+		}
 	}
 	return out
 }
